@@ -332,7 +332,9 @@ class EptMapResult:
                     b"".join(f.pack() for f in t),
                 ]
             )
-            padding = -(len(b_t)) % 4
+            # NDR64 aligns the next tower to 8 bytes, the length prefix is 12
+            # bytes so the padding mirrors what unpack() skips.
+            padding = -(len(b_t) + 4) % 8
             b_tower += b"".join(
                 [
                     len(b_t).to_bytes(8, byteorder="little"),
